@@ -115,6 +115,9 @@ pub fn panic_sig(msg: &str) -> String {
         "unwrap-none".to_string()
     } else if body.contains("not supposed to be called in the enum context") {
         "named-fields-on-enum".to_string()
+    } else if body.starts_with("Unrecognized literal") {
+        // syn 1.0 (lit.rs) on a literal token it predates; the message quotes the literal, which is not part of the class
+        "unrecognized-literal".to_string()
     } else if body.contains("index out of bounds") {
         "index-oob".to_string()
     } else {
